@@ -143,19 +143,40 @@ Proof.
   intros _ _. apply str_cmp_eq in E1, E2, E3. now subst.
 Qed.
 
+Definition lex (c d : comparison) : comparison := match c with Eq => d | Lt => Lt | Gt => Gt end.
+
+Lemma lex_lt_trans x y z p q r :
+  (p = Lt -> q = Lt -> r = Lt) ->
+  lex (str_cmp x y) p = Lt -> lex (str_cmp y z) q = Lt -> lex (str_cmp x z) r = Lt.
+Proof.
+  intros Hrest. destruct (str_cmp x y) eqn:E1, (str_cmp y z) eqn:E2; cbn; try discriminate; intros H1 H2.
+  - apply str_cmp_eq in E1, E2. subst. rewrite str_cmp_refl. cbn. now apply Hrest.
+  - apply str_cmp_eq in E1. subst. now rewrite E2.
+  - apply str_cmp_eq in E2. subst. now rewrite E1.
+  - now rewrite (str_cmp_lt_trans _ _ _ E1 E2).
+Qed.
+
+Lemma label_cmp_lt_trans a b c : label_cmp a b = Lt -> label_cmp b c = Lt -> label_cmp a c = Lt.
+Proof.
+  destruct a as [a1 a2 a3], b as [b1 b2 b3], c as [c1 c2 c3]. intros H1 H2.
+  exact (lex_lt_trans a1 b1 c1 _ _ _ (lex_lt_trans a2 b2 c2 _ _ _ (str_cmp_lt_trans a3 b3 c3)) H1 H2).
+Qed.
+
+Lemma label_cmp_eq a b : label_cmp a b = Eq -> a = b.
+Proof.
+  destruct a as [a1 a2 a3], b as [b1 b2 b3]. unfold label_cmp. cbn [l_sub l_pkg l_name].
+  destruct (str_cmp a1 b1) eqn:E1; try discriminate. destruct (str_cmp a2 b2) eqn:E2; try discriminate.
+  intros E3. apply str_cmp_eq in E1, E2, E3. now subst.
+Qed.
+
 Lemma label_leb_trans a b c : label_leb a b = true -> label_leb b c = true -> label_leb a c = true.
 Proof.
-  destruct a as [a1 a2 a3], b as [b1 b2 b3], c as [c1 c2 c3]. unfold label_leb, label_cmp. cbn [l_sub l_pkg l_name].
-  intros H1 H2.
-  destruct (str_cmp a1 b1) eqn:E1; try discriminate; destruct (str_cmp b1 c1) eqn:F1; try discriminate;
-    try (apply str_cmp_eq in E1; subst); try (apply str_cmp_eq in F1; subst);
-    try rewrite E1; try rewrite F1; try (rewrite (str_cmp_lt_trans _ _ _ E1 F1)); try reflexivity.
-  destruct (str_cmp a2 b2) eqn:E2; try discriminate; destruct (str_cmp b2 c2) eqn:F2; try discriminate;
-    try (apply str_cmp_eq in E2; subst); try (apply str_cmp_eq in F2; subst);
-    try rewrite E2; try rewrite F2; try (rewrite (str_cmp_lt_trans _ _ _ E2 F2)); try reflexivity.
-  destruct (str_cmp a3 b3) eqn:E3; try discriminate; destruct (str_cmp b3 c3) eqn:F3; try discriminate;
-    try (apply str_cmp_eq in E3; subst); try (apply str_cmp_eq in F3; subst);
-    try rewrite E3; try rewrite F3; try (rewrite (str_cmp_lt_trans _ _ _ E3 F3)); try reflexivity.
+  unfold label_leb. destruct (label_cmp a b) eqn:E1; try discriminate; intros _;
+    destruct (label_cmp b c) eqn:E2; try discriminate; intros _.
+  - apply label_cmp_eq in E1. subst. now rewrite E2.
+  - apply label_cmp_eq in E1. subst. now rewrite E2.
+  - apply label_cmp_eq in E2. subst. now rewrite E1.
+  - now rewrite (label_cmp_lt_trans _ _ _ E1 E2).
 Qed.
 
 Lemma sort_labels_perm l l' : Permutation l l' -> sort_labels l = sort_labels l'.
@@ -291,29 +312,22 @@ Proof. intros Hs Hu. specialize (Hs f). unfold field_same in Hs. now rewrite Hu 
 Lemma same_val_perm f t t' : same_target t t' -> val_perm (get f t) (get f t') \/ get f t = get f t'.
 Proof. intros Hs. specialize (Hs f). unfold field_same in Hs. destruct (unordered f); [now left | now right]. Qed.
 
+Ltac val_cases H :=
+  match goal with v : value, v' : value |- _ => destruct v, v' end;
+  repeat match goal with o : option smap |- _ => destruct o end;
+  cbn in *; try exact H; try discriminate H; try reflexivity; try exact I.
+
 Lemma perm_labels v v' : val_perm v v' \/ v = v' -> Permutation (as_labels v) (as_labels v').
-Proof.
-  intros [H| ->]; [|reflexivity]. destruct v, v'; cbn in *; try (inversion H; subst; reflexivity); try exact H.
-  all: try (destruct m; try destruct m0; try (inversion H; subst); reflexivity).
-Qed.
+Proof. intros [H| ->]; [|reflexivity]. val_cases H. Qed.
 
 Lemma perm_groups v v' : val_perm v v' \/ v = v' -> Permutation (as_groups v) (as_groups v').
-Proof.
-  intros [H| ->]; [|reflexivity]. destruct v, v'; cbn in *; try (inversion H; subst; reflexivity); try exact H.
-  all: try (destruct m; try destruct m0; try (inversion H; subst); reflexivity).
-Qed.
+Proof. intros [H| ->]; [|reflexivity]. val_cases H. Qed.
 
 Lemma perm_lgroups v v' : val_perm v v' \/ v = v' -> Permutation (as_lgroups v) (as_lgroups v').
-Proof.
-  intros [H| ->]; [|reflexivity]. destruct v, v'; cbn in *; try (inversion H; subst; reflexivity); try exact H.
-  all: try (destruct m; try destruct m0; try (inversion H; subst); reflexivity).
-Qed.
+Proof. intros [H| ->]; [|reflexivity]. val_cases H. Qed.
 
 Lemma perm_map v v' : val_perm v v' \/ v = v' -> Permutation (as_map v) (as_map v').
-Proof.
-  intros [H| ->]; [|reflexivity]. destruct v, v'; cbn in *; try (inversion H; subst; reflexivity); try exact H.
-  all: try (destruct m; try destruct m0; try (inversion H; subst); reflexivity).
-Qed.
+Proof. intros [H| ->]; [|reflexivity]. val_cases H. Qed.
 
 Lemma perm_optmap v v' : val_perm v v' \/ v = v' ->
   match as_optmap v, as_optmap v' with
@@ -322,14 +336,12 @@ Lemma perm_optmap v v' : val_perm v v' \/ v = v' ->
   | _, _ => False
   end.
 Proof.
-  intros [H| ->]; [|destruct (as_optmap v'); [reflexivity | exact I]].
-  destruct v, v'; cbn in *; try (inversion H; subst; cbn; try reflexivity; exact I); try exact I.
-  destruct m as [a|], m0 as [b|]; cbn in *; try exact H; try (inversion H; fail); exact I.
+  intros [H| ->]; [|destruct (as_optmap v'); [reflexivity | exact I]]. val_cases H.
 Qed.
 
 Lemma wf_keys t f : wf t -> keys_ok (get f t) = true.
 Proof.
-  unfold wf, wfb. intros H. repeat (apply andb_true_iff in H; destruct H as [H _]).
+  unfold wf, wfb. intros H. do 4 (apply andb_true_iff in H; destruct H as [H _]).
   rewrite forallb_forall in H. apply H. destruct f; cbn; tauto.
 Qed.
 
